@@ -229,12 +229,17 @@ type cfg struct {
 	Kind    int
 	SrcInit []ev
 	SrcHist []ev
-	DstHist []ev
-	MidHist []ev // double join only: changes of the services in the middle
-	Cycles  int
-	Mode    string
-	Bound   int
-	Name    string
+	// Sequenced: the source history runs first, one event at a time with quiescence in between (each change fully
+	// processed by the join before the next), and the destination history only after it
+	Sequenced bool
+	// SiblingJoin: a second join over the same bases is created with the first and closed while the histories run
+	SiblingJoin bool
+	DstHist     []ev
+	MidHist     []ev // double join only: changes of the services in the middle
+	Cycles      int
+	Mode        string
+	Bound       int
+	Name        string
 }
 
 type inst struct {
@@ -346,6 +351,13 @@ func (in *inst) run() {
 	vs.SleepIdle(time.Duration(1))
 	in.census0 = libCensus()
 	for cycle := 0; cycle < c.Cycles; cycle++ {
+		// (the sibling join is created first: its subscriptions come first in the bases' publishers)
+		var sibling *handle
+		if c.SiblingJoin && cycle == 0 {
+			if h2, err := in.k.start(ctx, src.Pub, midPub, dst.Pub); err == nil {
+				sibling = &h2
+			}
+		}
 		h, err := in.k.start(ctx, src.Pub, midPub, dst.Pub)
 		if err != nil {
 			in.joinErr = err
@@ -378,15 +390,29 @@ func (in *inst) run() {
 		if cycle == 0 {
 			// both bases become ready and go through their histories, concurrently
 			fin := make(chan bool, 2)
+			srcOver := make(chan struct{})
 			go func() {
 				src.Init(srcInit)
 				for _, e := range c.SrcHist {
+					if c.Sequenced {
+						vs.SleepIdle(time.Duration(1))
+					}
 					applySrc(e, true)
 				}
+				if c.Sequenced {
+					vs.SleepIdle(time.Duration(1))
+				}
+				close(srcOver)
 				fin <- true
 			}()
+			if c.SiblingJoin && sibling != nil {
+				go sibling.close()
+			}
 			go func() {
 				dst.Init(nil)
+				if c.Sequenced {
+					<-srcOver
+				}
 				for _, e := range c.DstHist {
 					o := in.dstObj(e)
 					if e.typ == kcache.EventTypeDelete {
@@ -557,11 +583,54 @@ func scenario(c cfg) runner.Sc {
 	}
 }
 
+// ReadinessScenarios: the readiness clause of C08 for joins ("a join becomes ready only after its source and its
+// destination are ready") on two scenarios per join kind; only that clause is judged here.
+func ReadinessScenarios(prop string, tier string) []runner.Sc {
+	d := 1
+	if tier == "thorough" {
+		d = 2
+	}
+	C := kcache.EventTypeCreate
+	var out []runner.Sc
+	for ki, k := range kinds {
+		sel1 := "l=1"
+		dst := []ev{{C, "ns", "p1", "l=1"}}
+		if k.selSvc {
+			sel1 = "s1"
+			if !k.double {
+				dst = []ev{{C, "ns", "s1", "x=1"}}
+			}
+		}
+		for _, c := range []cfg{
+			{Kind: ki, Name: "readiness/source-present", SrcInit: []ev{{C, "ns", "w1", sel1}}, DstHist: dst, Cycles: 1, Mode: "S2", Bound: d},
+			{Kind: ki, Name: "readiness/source-empty", DstHist: dst, Cycles: 1, Mode: "S2", Bound: d},
+		} {
+			c := c
+			sc := scenario(c)
+			sc.Scenario.Name = strings.Replace(sc.Scenario.Name, "c09/", strings.ToLower(prop)+"/join/", 1)
+			sc.Scenario.New = func() explore.Instance {
+				in := &inst{c: c}
+				return explore.Instance{Run: in.run, Outcome: in.outcome, Check: func(r *vs.Result) []string {
+					var keep []string
+					for _, m := range in.check(r) {
+						if strings.Contains(m, " join ready before its bases") {
+							keep = append(keep, m)
+						}
+					}
+					return keep
+				}}
+			}
+			out = append(out, sc)
+		}
+	}
+	return out
+}
+
 func Property() runner.Property {
 	return runner.Property{
 		ID:           "C09",
 		Level:        "model_checking",
-		QuickBudgetS: 240, ThoroughBudgetS: 3000,
+		QuickBudgetS: 600, ThoroughBudgetS: 3000,
 		Rule: "all eight generated joins and IngressPods over publisher-level base controllers wrapped by the real typed packages; sources that appear, change selector and disappear, destinations in two namespaces with overlapping labels, both bases becoming ready and running their histories concurrently with the join's construction; schedules within d deviations of the default (d=2 quick, 3 thorough); oracle at quiescence: join cache = destination objects selected by at least one current source (reference rule written from the property), join Ready() only observed with both bases ready, join events account for its cache, after Close() the join is done and the census of live library goroutines equals the census before the join was created (repeated create/close cycle), the destination base still delivers to an independent subscriber",
 		Assumptions: []string{
 			"bases are publisher-level (no lister/watcher): the whole-controller behaviour underneath is C03's subject",
@@ -588,14 +657,33 @@ func Property() runner.Property {
 				if k.selSvc && !k.double {
 					dst2 = []ev{{C, "ns", "s1", "x=1"}, {C, "other", "s1", "x=1"}}
 				}
+				sel3 := "l=3"
+				dst3 := []ev{{C, "ns", "p1", "l=1"}, {C, "ns", "p5", "l=3"}}
+				if k.selSvc {
+					sel3 = "s3"
+					if !k.double {
+						dst3 = []ev{{C, "ns", "s1", "x=1"}, {C, "ns", "s3", "x=1"}}
+					}
+				}
 				out = append(out,
 					scenario(cfg{Kind: ki, Name: "appear+change-selector", SrcInit: []ev{{C, "ns", "w1", sel1}}, SrcHist: []ev{{U, "ns", "w1", sel2}}, DstHist: dst, Cycles: 2, Mode: "S2", Bound: d}),
 					scenario(cfg{Kind: ki, Name: "two-identical-sources,one-changes", SrcInit: []ev{{C, "ns", "w1", sel1}, {C, "ns", "w2", sel1}}, SrcHist: []ev{{U, "ns", "w2", sel2}}, DstHist: dst, Cycles: 1, Mode: "S2", Bound: d}),
 					scenario(cfg{Kind: ki, Name: "destinations-move-in-and-out", SrcInit: []ev{{C, "ns", "w1", sel1}}, DstHist: moves(k, C, U, D), Cycles: 1, Mode: "S2", Bound: d}),
 					scenario(cfg{Kind: ki, Name: "sole-source-loses-its-selector", SrcInit: []ev{{C, "ns", "w1", sel1}}, SrcHist: []ev{{U, "ns", "w1", ""}}, DstHist: dst, Cycles: 1, Mode: "S2", Bound: d}),
 					scenario(cfg{Kind: ki, Name: "same-rule-in-two-namespaces", SrcInit: []ev{{C, "ns", "w1", sel1}}, SrcHist: []ev{{C, "other", "w2", sel1}}, DstHist: dst2, Cycles: 1, Mode: "S2", Bound: d}),
+					// a source appears that selects nothing yet and disappears again; then a destination object appears that it
+					// would have selected (the join's filter must be back to the first one)
+					scenario(cfg{Kind: ki, Name: "source-appears-and-disappears,then-its-target-appears", SrcInit: []ev{{C, "ns", "w1", sel1}}, SrcHist: []ev{{C, "ns", "w2", sel3}, {D, "ns", "w2", sel3}}, DstHist: dst3, Sequenced: true, Cycles: 1, Mode: "S2", Bound: d - 1}),
+					// a sibling join over the same bases is closed while events flow
 					scenario(cfg{Kind: ki, Name: "second-source+disappear", SrcInit: []ev{{C, "ns", "w1", sel1}}, SrcHist: []ev{{C, "ns", "w2", sel2}, {D, "ns", "w1", sel1}}, DstHist: dst, Cycles: 1, Mode: "S2", Bound: d}),
 				)
+			}
+			// a sibling join over the same bases is closed while events flow: the window (an event distributed between the
+			// sibling's subscription shutting down and its unsubscribe) needs 3 deviations here and 4M states, so this
+			// runs in the thorough tier only; the quick tiers of C05, C11, C02, C06 and C10 see the same window at the
+			// publisher level
+			if tier == "thorough" {
+				out = append(out, scenario(cfg{Kind: 0, Name: "sibling-join-closed-while-events-flow", SrcInit: []ev{{C, "ns", "w1", "l=1"}}, DstHist: []ev{{C, "ns", "p1", "l=1"}, {C, "ns", "p3", "l=1"}}, SiblingJoin: true, Cycles: 1, Mode: "S2", Bound: 3}))
 			}
 			// double join: the service in the middle changes its selector / disappears
 			ip := len(kinds) - 1
